@@ -28,6 +28,8 @@ type c18Op struct {
 
 type c18Case struct {
 	Ops []c18Op `json:"ops"`
+	// ReadsAtEndOnly: the state is read only after the last operation (default: after every one)
+	ReadsAtEndOnly bool `json:"reads_at_end_only,omitempty"`
 }
 
 func c18Vals() []expr.Expr {
@@ -125,9 +127,12 @@ func c18Run(c c18Case) (*eng.Fail, int) {
 				memMdl.store(int(ca)-0x1c, v, op.W)
 			}
 		}
-		// read surface after every operation
+		// read surface after every operation (or only after the last one)
+		if c.ReadsAtEndOnly && i < len(c.Ops)-1 {
+			continue
+		}
 		for _, k := range []string{"a", "b", "c"} {
-			for _, rw := range []expr.Width{1, 2, 3, 4, 8} {
+			for _, rw := range []expr.Width{1, 2, 3, 4, 8, 16, 33} {
 				var got expr.Expr
 				var ok bool
 				p, stack := eng.Catch(func() { got, ok = s.Regs.Load(expr.Key(k), rw) })
@@ -171,7 +176,7 @@ func c18Run(c c18Case) (*eng.Fail, int) {
 func init() {
 	checks["C18"] = eng.Check{
 		Hist: true,
-		Rule: "every history of <=3 operations over {Apply(RegStore) and RegMap.Store to keys a,b with 6 value shapes (constants of width 1,2,4, register load, memory load, binary) at write widths 1,2,4; Apply(MemStore) with constant / foldable / non-constant addresses (6 shapes) at widths 1,2,4} on a fresh real State; after every operation Load(k,w) for k in {a,b,c}, w in {1,2,3,4,8} compared (presence, width, value under 5 valuations) with the last written value adjusted to its write width then to the read width; refused memory writes must leave the full state snapshot unchanged; accepted ones are compared byte-wise. Non-trivial = history with >=2 operations.",
+		Rule: "every history of <=3 operations over {Apply(RegStore) and RegMap.Store to keys a,b with 6 value shapes (constants of width 1,2,4, register load, memory load, binary) at write widths 1,2,4 (and 8,16,40 for three shapes); Apply(MemStore) with constant / foldable / non-constant addresses (6 shapes) at widths 1,2,4} on a fresh real State; after every operation (and, in a second run of each history, only after the last one) Load(k,w) for k in {a,b,c}, w in {1,2,3,4,8,16,33} compared (presence, width, value under 5 valuations) with the last written value adjusted to its write width then to the read width; refused memory writes must leave the full state snapshot unchanged; accepted ones are compared byte-wise. Non-trivial = history with >=2 operations.",
 		Run: func(r *eng.Run) {
 			var alpha []c18Op
 			for _, k := range []string{"a", "b"} {
@@ -182,6 +187,11 @@ func init() {
 							alpha = append(alpha, c18Op{Kind: "regmap", Key: k, Val: v, W: w})
 						}
 					}
+				}
+			}
+			for _, w := range []int{8, 16, 40} {
+				for _, v := range []int{2, 4, 5} {
+					alpha = append(alpha, c18Op{Kind: "reg", Key: "a", Val: v, W: w})
 				}
 			}
 			for a := 0; a < 6; a++ {
@@ -199,7 +209,13 @@ func init() {
 			r.Par(len(alpha), func(i0 int) {
 				var rec func(ops []c18Op)
 				rec = func(ops []c18Op) {
-					c := c18Case{append([]c18Op{}, ops...)}
+					c := c18Case{Ops: append([]c18Op{}, ops...)}
+					if len(ops) > 1 {
+						if f2, _ := c18Run(c18Case{Ops: c.Ops, ReadsAtEndOnly: true}); f2 != nil {
+							r.Report(f2)
+						}
+						r.Eval(1)
+					}
 					f, t := c18Run(c)
 					r.Eval(1)
 					r.State(1)
@@ -220,7 +236,7 @@ func init() {
 				}
 				rec([]c18Op{alpha[i0]})
 			})
-			r.Sample(c18Case{[]c18Op{{Kind: "reg", Key: "a", Val: 2, W: 2}, {Kind: "mem", Val: 3, W: 4, Addr: 1}}})
+			r.Sample(c18Case{Ops: []c18Op{{Kind: "reg", Key: "a", Val: 2, W: 2}, {Kind: "mem", Val: 3, W: 4, Addr: 1}}})
 		},
 		Replay: func(r *eng.Run, raw json.RawMessage) *eng.Fail {
 			var c c18Case
